@@ -63,7 +63,9 @@ M = Monitor(
 def gen_case(rng, i):
     ubkind = "inf" if i % 4 == 3 else "finite"
     m = 1 if i % 11 == 0 else None
-    s = gen.make_system(rng, m=m, ubkind=ubkind)
+    wide = bool(i % 3 == 1)
+    s = gen.make_system(rng, m=m, ubkind=ubkind, ub_wide=wide)
+    s["ub_wide"] = wide
     Mt, c0, lbv, ubv = gen.sys_arrays(s)
     m_, n = Mt.shape
     N = int(rng.integers(1, 7))
@@ -132,6 +134,8 @@ def chk_case(inp, c):
     N = B.shape[0]
     kw, tau_e, tau_b_rel = SETTINGS[inp["setting"]]
     c.cell(*gen.sys_cells(inp), "setting=" + inp["setting"], "W=" + inp["wkind"], "api=" + inp["api"])
+    if np.all(np.isfinite(ubv)):
+        c.cell("ub-scale=" + ("<0.2" if np.max(ubv) < 0.2 else "<1" if np.max(ubv) < 1 else ">=1"))
     for k in set(inp["classes"]):
         c.cell("class=" + k)
     Barg = B[0] if (inp["rank1"] and inp["api"] != "register_targets+fit()") else B
